@@ -33,7 +33,9 @@ FAMILIES = {
 }
 # style family used for the default layer of each object kind
 DEFAULT_FAMILY = {"magnet": "magnet", "current": "current", "sensor": "sensor", "dipole": "dipole",
-                  "triangle": "triangle", "triangularmesh": "magnet"}
+                  "triangle": "triangle", "triangularmesh": "triangularmesh"}
+# objects with two style families: the generic family applies where the specific one has no (non-None) default
+GENERIC_FAMILY = {"triangle": "magnet", "triangularmesh": "magnet"}
 OBJ_VIAS = ["attr", "update_kw", "update_dict", "update_nested", "sub_update", "style_setter"]
 
 
@@ -186,6 +188,7 @@ class Model:
     def __init__(self, fam, leaf, born):
         base = BASE()
         self.fam_key = f"display.style.{DEFAULT_FAMILY[fam]}.{leaf}"
+        self.gen_key = f"display.style.{GENERIC_FAMILY[fam]}.{leaf}" if fam in GENERIC_FAMILY else None
         self.base_key = f"display.style.base.{leaf}"
         self.obj = born
         self.defaults = {}  # overrides of default leaves (normalised read-back values)
@@ -200,6 +203,8 @@ class Model:
             return self.obj
         if self.fam_key in BASE() and self.default_value(self.fam_key) is not None:
             return self.default_value(self.fam_key)
+        if self.gen_key in BASE() and self.default_value(self.gen_key) is not None:
+            return self.default_value(self.gen_key)
         if self.base_key in BASE():
             return self.default_value(self.base_key)
         return None
@@ -223,6 +228,8 @@ def actions_for(fam, leaf, vals, tier_full, none_ok=True):
     bk = f"display.style.base.{leaf}"
     if fk in base:
         acts += [("fam", "attr", 0), ("fam", "update", 1)]
+    if fam in GENERIC_FAMILY and f"display.style.{GENERIC_FAMILY[fam]}.{leaf}" in base:
+        acts += [("gen", "attr", 1), ("gen", "update", 0)]
     if bk in base:
         acts += [("base", "attr", 1), ("base", "update", 0)]
     acts.append(("reset",))
@@ -230,7 +237,7 @@ def actions_for(fam, leaf, vals, tier_full, none_ok=True):
 
 
 SECOND_REDUCED = [("obj", "attr", 1), ("obj", "update_kw", 1), ("obj", "update_kw", None),
-                  ("obj", "update_nested", None), ("fam", "attr", 0),
+                  ("obj", "update_nested", None), ("fam", "attr", 0), ("gen", "attr", 1),
                   ("base", "attr", 1), ("reset",)]
 
 
@@ -298,9 +305,9 @@ def check_leaf(task):
                         c, b = vals[act[2]] if act[2] is not None else (None, None)
                         obj_write(o, leaf, act[1], copy.deepcopy(c))
                         m.obj = b
-                    elif act[0] in ("fam", "base"):
+                    elif act[0] in ("fam", "base", "gen"):
                         c, b = vals[act[2]]
-                        root = f"display.style.{DEFAULT_FAMILY[fam] if act[0] == 'fam' else 'base'}"
+                        root = "display.style." + {"fam": DEFAULT_FAMILY[fam], "base": "base", "gen": GENERIC_FAMILY.get(fam)}[act[0]]
                         default_write(root, leaf, act[1], copy.deepcopy(c))
                         m.defaults[root + "." + leaf] = b
                     elif act[0] == "reset":
@@ -532,6 +539,78 @@ def check_style_copy(task):
     return {"transitions": n, "viols": viols}
 
 
+# ------------------------------------------------------------------ unobserved cross-leaf histories
+PAIR_HISTORIES = ["ctor_kw;setter_nested", "ctor_dict;setter_nested", "ctor_kw;setter_flat", "setter_nested;setter_nested",
+                  "setter_flat;setter_nested", "ctor_kw+ctor_kw", "ctor_kw;copy_kw", "ctor_kw;read;update_kw",
+                  "ctor_kw;read;setter_nested"]
+
+
+def check_pairs(task):
+    """Histories of two writes to two DIFFERENT leaves (A then B) of one object in which the style is not read
+    between the writes (reading materialises the lazily created style object and hides merge defects); the
+    style is observed once at the end and must equal the fresh style with exactly A and B replaced."""
+    _, fam, leafA, tier = task
+    factory = FAMILIES[fam]
+    if not hard_reset():
+        return {"harness": "cannot restore defaults baseline"}
+    leaves = leaves_of(fam)
+    vals = {}
+    for lf in leaves:
+        v, _ = probe_values(lambda: factory().style, lf, want=1)
+        if v:
+            vals[lf] = v[0]
+    if leafA not in vals:
+        return {"uncovered": f"{fam}:{leafA}", "transitions": 0, "histories": 0, "viols": []}
+    fresh = lin(factory().style.as_dict())
+    viols, n = [], 0
+    (cA, bA) = vals[leafA]
+    usA = leafA.replace(".", "_")
+    for leafB in leaves:
+        if leafB == leafA or leafB not in vals or leafB.startswith(leafA + ".") or leafA.startswith(leafB + "."):
+            continue
+        (cB, bB) = vals[leafB]
+        usB = leafB.replace(".", "_")
+        for h in PAIR_HISTORIES:
+            n += 1
+            try:
+                steps = h.split(";")
+                o = None
+                for st in steps:
+                    if st == "ctor_kw":
+                        o = factory(**{"style_" + usA: copy.deepcopy(cA)})
+                    elif st == "ctor_dict":
+                        o = factory(style=nested(leafA, copy.deepcopy(cA)))
+                    elif st == "ctor_kw+ctor_kw":
+                        o = factory(**{"style_" + usA: copy.deepcopy(cA), "style_" + usB: copy.deepcopy(cB)})
+                    elif st in ("setter_nested", "setter_flat"):
+                        first = o is None
+                        if first:
+                            o = factory()
+                        lf, c = (leafA, cA) if first else (leafB, cB)
+                        o.style = nested(lf, copy.deepcopy(c)) if st == "setter_nested" else {lf.replace(".", "_"): copy.deepcopy(c)}
+                    elif st == "copy_kw":
+                        o = o.copy(**{"style_" + usB: copy.deepcopy(cB)})
+                    elif st == "read":
+                        _ = o.style.as_dict()
+                    elif st == "update_kw":
+                        o.style.update(**{usB: copy.deepcopy(cB)})
+                    else:
+                        raise AssertionError(st)
+                got = lin(o.style.as_dict())
+            except Exception as e:
+                viols.append((f"pair-raises-{type(e).__name__}:{h}", [leafA, leafB, h], str(e)[:100]))
+                continue
+            exp = dict(fresh)
+            exp[leafA], exp[leafB] = bA, bB
+            bad = [k for k in exp if k != "label" and norm(got.get(k)) != norm(exp[k])]
+            if bad:
+                which = "first-write-lost" if leafA in bad else "second-write-lost" if leafB in bad else "other-leaf-changed"
+                viols.append((f"pair-{which}:{h}", [leafA, leafB, h], f"{bad[:3]} got {[got.get(k) for k in bad[:3]]} expected {[exp[k] for k in bad[:3]]}"))
+    hard_reset()
+    return {"transitions": n, "histories": n, "viols": viols}
+
+
+
 def leaves_of(fam):
     o = FAMILIES[fam]()
     out = []
@@ -548,6 +627,8 @@ def work(task):
             return check_default_leaf(task[1])
         if task[0] == "stylecopy":
             return check_style_copy(task)
+        if task[0] == "pairs":
+            return check_pairs(task)
         return check_leaf(task)
     except Exception as e:
         import traceback
@@ -565,6 +646,8 @@ def run(tier, seed):
         for leaf in leaves_of(fam):
             tasks.append((fam, leaf, tier))
     dtasks = [("default", k) for k in BASE()] + [("stylecopy", fam) for fam in FAMILIES]
+    dtasks += [("pairs", fam, leaf, tier) for fam in FAMILIES for leaf in leaves_of(fam)
+               if not (tier == "quick" and fam in ("triangularmesh", "triangle"))]
     res = common.pmap(work, tasks + dtasks, chunk=1)
     viols, harness, uncovered = [], [], []
     trans = hist = 0
@@ -581,7 +664,7 @@ def run(tier, seed):
         if len(samples) < 3 and r.get("values"):
             samples.append({"family": t[0], "leaf": t[1], "values": r["values"], "invalid": r["bad"]})
         for kind, steps, detail in r["viols"]:
-            tname = f"{t[0]}.{t[1]}"
+            tname = f"{t[0]}.{t[1]}" if t[0] != "pairs" else f"{t[1]}.{t[2]}"
             viols.append({"key": f"C20|{tname}|{kind}",
                           "what": f"{tname}: {kind} history={steps} {detail}",
                           "case": {"task": list(t), "kind": kind}, "observed": [kind, detail]})
